@@ -29,6 +29,53 @@ theorem constructor_establishes_wf (exons : List Blk) (st : Strand) (cds : Optio
     (t : Transcript) (h : mkTranscript exons st cds plen = .ok t) : WFT t ∧ t.exons.strand = st :=
   mkTranscript_wf exons st cds plen t h
 
+/-- The reading frames handed to the constructor (`cds_frames`, one per CDS block: any of 0/1/2, consistent or
+    frameshifted, 5'-partial or not) do not influence the transcript the coordinate API works on: whenever the
+    constructor accepts two frame vectors it returns the same `Transcript`, hence the same answer to every
+    conversion — in particular the amino-acid index is CDS position / 3 (`amino_acid_index_spec`) whatever the
+    frames are. -/
+theorem frames_do_not_enter_coordinates (exons : List Blk) (st : Strand) (cds : Option (List Blk))
+    (fs fs' : List CDSFrame) (plen : Option Nat) (t t' : Transcript)
+    (h : mkTranscriptF exons st cds fs plen = .ok t) (h' : mkTranscriptF exons st cds fs' plen = .ok t') :
+    t = t' ∧ mkTranscript exons st cds plen = .ok t ∧
+      ∀ p, t.sequencePosToAminoAcid p = t'.sequencePosToAminoAcid p ∧ t.sequencePosToCds p = t'.sequencePosToCds p := by
+  have e1 : mkTranscript exons st cds plen = .ok t := by
+    unfold mkTranscriptF at h
+    cases cds with
+    | none => exact h
+    | some cb => simp only at h; split at h; · cases h
+                 · exact h
+  have e2 : mkTranscript exons st cds plen = .ok t' := by
+    unfold mkTranscriptF at h'
+    cases cds with
+    | none => exact h'
+    | some cb => simp only at h'; split at h'; · cases h'
+                 · exact h'
+  rw [e1] at e2
+  have := Except.ok.inj e2
+  subst this
+  exact ⟨rfl, e1, fun _ => ⟨rfl, rfl⟩⟩
+
+/-- the same for a transcript built on a chunk -/
+theorem frames_do_not_enter_chunk_coordinates (exons : List Blk) (st : Strand) (cds : Option (List Blk))
+    (fs fs' : List CDSFrame) (w : Blk) (wst : Strand) (c c' : ChunkTranscript)
+    (h : mkChunkTranscriptF exons st cds fs w wst = .ok c) (h' : mkChunkTranscriptF exons st cds fs' w wst = .ok c') :
+    c = c' ∧ mkChunkTranscript exons st cds w wst = .ok c := by
+  have e1 : mkChunkTranscript exons st cds w wst = .ok c := by
+    unfold mkChunkTranscriptF at h
+    cases cds with
+    | none => exact h
+    | some cb => simp only at h; split at h; · cases h
+                 · exact h
+  have e2 : mkChunkTranscript exons st cds w wst = .ok c' := by
+    unfold mkChunkTranscriptF at h'
+    cases cds with
+    | none => exact h'
+    | some cb => simp only at h'; split at h'; · cases h'
+                 · exact h'
+  rw [e1] at e2
+  exact ⟨Except.ok.inj e2, e1⟩
+
 /-! ### position conversions: each method is the lookup the spec prescribes
     (index in / element of `bases E`, `bases D`); everything outside the source system is refused -/
 
@@ -346,36 +393,25 @@ theorem chunk_interval_to_cds_spec (c : ChunkTranscript) (h : WFC c) (hd : c.bas
     okCRI2D (specOf c.base) (winOf c) s e st (ans (c.chunkRelativeIntervalToCds s e st)) = true :=
   cri2d_ok c h hd hnoD s e st
 
-/-- `get_5p_interval` of a chunk-built transcript = the 5' UTR's in-chunk bases in chunk coordinates.
-    FULL statement: without `hall`.  It is FALSE for the code as it is (finding F-C06b): the transcript index of
-    the CDS start — an index into the WHOLE transcript — is applied to the in-chunk part of the transcript, so a
-    chunk that cuts the transcript's 5' side shifts the answer (`utr5_on_cutting_chunk_deviates`).  Proved here
-    for chunks that contain the whole transcript. -/
-theorem utr5_on_chunk_spec_partial (c : ChunkTranscript) (h : WFC c) (d : Loc) (hc : Coding c.base d)
-    (hnoD : d.NonOverlap) (hall : ∀ x ∈ bases c.base.exons, inWin c.w x = true) :
+/-- `get_5p_interval` of a chunk-built transcript ("the result is chunk-relative") = the 5' UTR's in-chunk bases,
+    in transcript order, in chunk coordinates — for EVERY chunk (containing, cutting or missing the transcript);
+    a location without bases, never an error, when no UTR base lies on the chunk.
+    (Code after the repair of F-C06b, /repo 9fec3b5: the whole-transcript index of the CDS start is reduced by
+    `_chunk_relative_transcript_start` and clamped to the in-chunk part.) -/
+theorem utr5_on_chunk_spec (c : ChunkTranscript) (h : WFC c) (d : Loc) (hc : Coding c.base d)
+    (hnoD : d.NonOverlap) :
     okKUtr (specOf c.base) (winOf c) true (ans c.get5pInterval) = true :=
-  kutr5_ok c h d hc hnoD hall
+  kutr5_ok c h d hc hnoD
 
-/-- `get_3p_interval` of a chunk-built transcript, same scope (F-C06b: `len(cds.chunk_relative_location)` and
-    `len(_location)` are in-chunk lengths, the CDS end index is a whole-transcript index). -/
-theorem utr3_on_chunk_spec_partial (c : ChunkTranscript) (h : WFC c) (d : Loc) (hc : Coding c.base d)
-    (hnoD : d.NonOverlap) (hall : ∀ x ∈ bases c.base.exons, inWin c.w x = true) :
+/-- `get_3p_interval` of a chunk-built transcript, likewise for every chunk. -/
+theorem utr3_on_chunk_spec (c : ChunkTranscript) (h : WFC c) (d : Loc) (hc : Coding c.base d)
+    (hnoD : d.NonOverlap) :
     okKUtr (specOf c.base) (winOf c) false (ans c.get3pInterval) = true :=
-  kutr3_ok c h d hc hnoD hall
+  kutr3_ok c h d hc hnoD
 
 /-- exons `[0,10)` +, CDS `[4,8)`, built on the chunk `[2,20)` (which cuts the first two bases) -/
 def exCut : ChunkTranscript :=
   ⟨⟨⟨[(0, 10)], .plus⟩, some ⟨[(4, 8)], .plus⟩, none⟩, (2, 20), .plus, .single (0, 8) .plus, some (.single (2, 6) .plus)⟩
-
-/-- F-C06b witness: on `exCut` the modelled current code answers chunk `[0,4)` (chromosome `[2,6)`, two of them
-    CDS bases) for the 5' UTR, whose in-chunk part is chromosome `[2,4)` = chunk `[0,2)`; and a zero-length
-    3' UTR, whose in-chunk part is chromosome `[8,10)` = chunk `[6,8)`. -/
-theorem utr_on_cutting_chunk_deviates :
-    exCut.get5pInterval = .ok (.single (0, 4) .plus) ∧
-    okKUtr (specOf exCut.base) (winOf exCut) true (ans exCut.get5pInterval) = false ∧
-    exCut.get3pInterval = .ok (.single (8, 8) .plus) ∧
-    okKUtr (specOf exCut.base) (winOf exCut) false (ans exCut.get3pInterval) = false := by
-  refine ⟨by rfl, by decide, by rfl, by decide⟩
 
 /-! ### non-vacuity: a minus-strand transcript with a 0-bp gap, CDS starting at an exon boundary and
     ending inside the last (5'-most on the chromosome) exon satisfies every hypothesis used above -/
@@ -405,6 +441,12 @@ example : ∃ u5 u3, exTx.get5pInterval = .ok u5 ∧ exTx.get3pInterval = .ok u3
     subst this; exact ⟨by decide, rfl⟩⟩
   obtain ⟨u5, u3, h5, h3, _⟩ := utr_cds_utr_tile_the_transcript exTx hw _ ⟨rfl, by decide, by decide⟩
   exact ⟨u5, u3, h5, h3⟩
+-- a 5'-partial CDS (start frame ONE) and a frame-ZERO one give the same transcript:
+example : mkTranscriptF [(2, 9)] .plus (some [(3, 8)]) [.ONE] none = mkTranscriptF [(2, 9)] .plus (some [(3, 8)]) [.ZERO] none := by
+  rfl
+example : mkTranscriptF [(2, 9)] .plus (some [(3, 8)]) [.TWO] none = .ok ⟨⟨[(2, 9)], .plus⟩, some ⟨[(3, 8)], .plus⟩, none⟩ := by
+  simp [mkTranscriptF, mkTranscript, initializeLocation, Model.chromosomeLocation, mkSingle, mkCompoundLoc, sortBlocks,
+    blocksValid, Loc.len, blocksLen, Blk.len, bind, Except.bind, pure, Except.pure]
 -- the modelled constructor returns a transcript (single exon, coding):
 example : mkTranscript [(2, 9)] .plus (some [(3, 8)]) none = .ok ⟨⟨[(2, 9)], .plus⟩, some ⟨[(3, 8)], .plus⟩, none⟩ := by
   simp [mkTranscript, initializeLocation, Model.chromosomeLocation, mkSingle, mkCompoundLoc, sortBlocks,
@@ -430,6 +472,10 @@ example : WFC exCut :=
 example : exCut.base.exons.strand ≠ .unstranded := by decide
 example : exCut.base.exons.NonOverlap := by decide
 example : Coding exCut.base ⟨[(4, 8)], .plus⟩ := ⟨rfl, by decide, by decide⟩
+-- regression for F-C06b (repaired): on the cutting chunk the 5' UTR is chromosome [2,4) = chunk [0,2) (was [0,4)),
+-- the 3' UTR chromosome [8,10) = chunk [6,8) (was the zero-length [8,8))
+example : exCut.get5pInterval = .ok (.single (0, 2) .plus) := by rfl
+example : exCut.get3pInterval = .ok (.single (6, 8) .plus) := by rfl
 example : exCut.chunkRelativePosToTranscript 0 = .ok 0 := by rfl          -- chunk 0 = chromosome 2 = in-chunk base 0
 example : exCut.base.sequencePosToTranscript 2 = .ok 2 := by rfl          -- …which is transcript position 2
 -- a chunk that contains the transcript (`hall`), on the minus strand of the chromosome
